@@ -428,6 +428,64 @@ impl TrueName {
 //@@ END
 }
 
+// ---- raise / handle (C01 "raise/handle"; C08 "the emitted Python catches the listed classes"; C11) -------------------------
+/// outline of `var.as_deref()` on Option<Box<Core>>
+#[verifier::external_body]
+pub fn verif_outline_as_deref<'a>(v: &'a Option<Box<Core>>) -> (r: Option<&'a Core>)
+    ensures v is None ==> r is None, v matches Some(b) ==> r == Some(&**b),
+{ unimplemented!() }
+/// HAVOCKED: the class of a handle arm `ty.as_ref().map_or_else(|| panic!(..), |ty| ty.to_py(imp))` (closure with
+/// panic! capturing &mut imp): arbitrary Core; that the panic is unreachable is NOT established here
+#[verifier::external_body]
+pub fn verif_havoc_case_class(imp: &mut Imports) -> (r: Core) ensures forall|m: Seq<char>, n: Seq<char>| imp_has_from(*old(imp), m, n) ==> imp_has_from(*final(imp), m, n) { unimplemented!() }
+
+pub open spec fn handle_target(e: ASTTy) -> Option<ASTTy> {
+    match e.node { NodeTy::VariableDef { var, .. } => Some(*var), _ => None }
+}
+
+/// what convert_handle must return for a Handle node
+pub open spec fn handle_post(ast: ASTTy, state: State, ctx: Context, c: Core) -> bool {
+    match ast.node {
+        NodeTy::Raise { error } => c matches Core::Raise { error: e2 } && Some(*e2) == conv(*error, state, ctx),
+        NodeTy::Handle { expr_or_stmt, cases } =>
+            c matches Core::TryExcept { setup, attempt, except }
+            // the guarded expression is converted in the caller's state
+            && Some(*attempt) == conv(*expr_or_stmt, state, ctx)
+            // C01/C11: the target of `def v := e handle ..` is pre-declared before the try — whenever there is a
+            // target, whatever the annotate flag says
+            && (setup is Some) == (handle_target(*expr_or_stmt) is Some)
+            && (setup matches Some(sd) ==> (*sd matches Core::VarDef { var, ty, expr } && expr is None
+                    && Some(*var) == conv(handle_target(*expr_or_stmt)->Some_0, state, ctx)))
+            && except@.len() == cases@.len(),
+        _ => true,
+    }
+}
+
+#[verifier::loop_isolation(false)]
+//@@ FN src/generate/convert/handle.rs | free | convert_handle | props=C01,C11,C03
+//@@ HAVOC
+//@@< ty.as_ref().map(|ty| ty.to_py(imp)).map(Box::from)
+//@@> verif_havoc::<Option<Box<Core>>>()
+//@@ OUTLINE
+//@@< var.as_deref()
+//@@> verif_outline_as_deref(&var)
+//@@ CLOSURE
+//@@< var.map(|var| { Box::from(Core::VarDef { var, ty, expr: None, }) })
+//@@> (match var { Some(var) => Some(Box::from(Core::VarDef { var, ty, expr: None, })), None => None })
+//@@ HAVOC
+//@@< ty.as_ref().map_or_else( || panic!("handle case must have class"), |ty| ty.to_py(imp), )
+//@@> verif_havoc_case_class(imp)
+//@@ ITERNAME
+//@@< for $case in cases
+//@@> for $case in it: cases
+//@@ LOOPINV
+//@@< for $case in cases
+//@@> invariant except@.len() == it.index@, forall|m: Seq<char>, n: Seq<char>| imp_has_from(*old(imp), m, n) ==> imp_has_from(*imp, m, n),
+    ensures
+        r matches Ok(c) ==> handle_post(*ast, *state, *ctx, c),                  //# try_except_shape_with_predeclared_target [C01,C11]
+        forall|m: Seq<char>, n: Seq<char>| imp_has_from(*old(imp), m, n) ==> imp_has_from(*final(imp), m, n),   //# imports_only_grow [C16]
+//@@ END
+
 } // verus!
 
 fn main() {}
